@@ -53,7 +53,7 @@ BATCH = 10
 
 
 def quick_runs(prop):
-    return {'C20': 700, 'C21': 900}.get(prop, 500)
+    return {'C20': 1600, 'C21': 5000}.get(prop, 500)
 
 
 ###############################################################################
@@ -702,6 +702,7 @@ class Hook20(object):
         self.quit_pending = False
         self.parsed = 0
         self.delivered = []       # (op index, act) for diagnostics
+        self.typed = {}
         self.prompt_idle = 0
 
     def state(self, line):
@@ -779,6 +780,9 @@ class Hook20(object):
                 elif e[0] == '#' and e[1] == 'FIN':
                     nxt = None
             if nxt is not None:
+                self.typed[nxt] = self.typed.get(nxt, 0) + 1
+                if nxt != u'CONT' and self.typed[nxt] > 2:
+                    return          # the same continuation again and again: give up, the judge reports it
                 t.script.append({'t': 'line', 'text': nxt})
 
 
@@ -793,11 +797,13 @@ def run20(case):
     cfg = case['cfg']
     ops = case['ops']
 
+    ctx = {}
+
     def body(run):
         w = run.w
         scratch = run.make_scratch()
         lines, call_lines = program20(cfg, ops)
-        sinks = Sinks()
+        sinks = ctx['sinks'] = Sinks()
         with w, ForcedGC(w, cfg.get('gc_k', 0)):
             d = Driver(w, output_streams=sinks.current, **cfg.get('session', {}))
             for l in lines:
@@ -831,6 +837,13 @@ def run20(case):
             # same innermost frame, different defects: say where the detached string was met
             if e.signature.endswith('strings.py:_retrieve'):
                 where = 'in-collector' if 'collect_garbage' in e.tb else 'in-dereference'
+                # ... and when: inside the call statement, or later when the variables are read
+                tags = [x[1] for x in parse_trace(ctx['sinks'].value()) if x[0] == '#']
+                last = [t_ for t_ in tags if t_ in ('B', 'A', 'T')][-1:] or ['start']
+                n_after = len(tags) - 1 - max([j for j, t_ in enumerate(tags) if t_ in ('B', 'A', 'T')] or [-1])
+                phase = {'B': 'in-call-statement' if n_after >= 2 else 'in-dump-before-call',
+                         'A': 'in-dump-after-call', 'T': 'in-trap-handler-dump', 'start': 'before-first-call'}[last[0]]
+                where += ':' + phase
                 run.res['status'] = 'crash'
                 run.violate('C20', 'crash:%s:%s' % (e.signature, where),
                             '%s: %s (during %r)\n%s\nprogram:\n%s' % (e.exc_type, e.exc_msg, e.where, e.tb[-1500:],
@@ -1187,9 +1200,11 @@ def _result_class(cfg, op, m):
     fns = sorted(_called_fns(cfg, op['e'], m))
     for node in [op['e']] + [m.defs[f] for f in fns if f in m.defs]:
         for call in _call_nodes(node):
-            ps = set(_norm(p) for p in cfg['fns'].get(call[1], []))
-            if any(a[0] == 'v' and _norm(a[1]) in ps for a in call[2]):
-                return 'argument-is-bare-variable-named-like-a-parameter'
+            ps = [_norm(p) for p in cfg['fns'].get(call[1], [])]
+            for j, a in enumerate(call[2]):
+                # a bare variable passed for parameter j that names an earlier parameter i < j
+                if a[0] == 'v' and _norm(a[1]) in ps[:j]:
+                    return 'argument-is-bare-variable-named-like-an-earlier-parameter'
     for fn in fns:
         body = m.defs.get(fn)
         if body and body[0] in ('v', 'e') and _sig(body[1]) == _sig(fn):
@@ -1667,6 +1682,8 @@ class Model21(object):
             if self.on_error:
                 # whether an armed trap catches error 20 is not specified: stop comparing here
                 raise Unspec()
+            if self.run is not None:
+                self.run.probe('resume-without-error')
             return self.raise_error(p, 20)
         elif k == 'open':
             f, mode, num = sem[1], sem[2], sem[3]
@@ -1904,8 +1921,9 @@ def gen21(rng, tier):
         lo = {'op': 'load', 'file': 'P%02d' % cx['nfile']}
         ops.append(lo)
         if faulty and rng.random() < 0.8:
-            cx['faults'].append({'op': 'fault', 'file': lo['file'], 'kind': 'open',
-                                 'errno': rng.choice(sorted(ERRNO_CODE)), 'r': rng.choice([1, 2])})
+            lk = rng.choice(['open'] * 23 + ['read'])
+            cx['faults'].append({'op': 'fault', 'file': lo['file'], 'kind': lk,
+                                 'errno': 'EIO' if lk == 'read' else rng.choice(sorted(ERRNO_CODE)), 'r': rng.choice([1, 2])})
     ops = cx['faults'] + ops
     return {'machine': NAME, 'prop': 'C21', 'cfg': cfg, 'ops': ops}
 
@@ -1979,12 +1997,15 @@ def run21(case):
                         model.run_direct_safe(op['stmts'])
                         typed += 1
             for op in loads[:1]:
-                fl = model.faults.get((op['file'], 'open'))
-                n_fail = fl[0] if fl else 0
-                for _ in range(n_fail):
-                    script.append({'t': 'line', 'text': u'LOAD "%s"' % op['file']})
-                    model.emit(('derr', fl[1] if fl[1] in ERRMSG else -1))
-                    fl[0] -= 1
+                n_fail = 0
+                for lk in ('open', 'read'):
+                    # each attempt fails at the first faulted host call: first the opens, then the reads
+                    fl = model.faults.get((op['file'], lk))
+                    while fl and fl[0] > 0:
+                        script.append({'t': 'line', 'text': u'LOAD "%s"' % op['file']})
+                        model.emit(('derr', 57 if lk == 'read' else fl[1]))
+                        fl[0] -= 1
+                        n_fail += 1
                 script.append({'t': 'line', 'text': u'LOAD "%s"' % op['file']})
                 script.append({'t': 'line', 'text': u'RUN'})
                 model.emit(('L', op['file']))
